@@ -6,14 +6,15 @@ O2 == O1 + (NBoundPaths)
 O3 == O2 + (NOpenPaths)
 O4 == O3 + (Len(ForIdx))
 O5 == O4 + NPrefixExt
-Count == O5 + NPathEveryChar
+Count == O5 + NPathEveryChar + NForIdxHist
 ItemAt(g) ==
   IF g <= O1 THEN StringAt(g - 0)
   ELSE IF g <= O2 THEN BoundPathAt(g - O1)
   ELSE IF g <= O3 THEN OpenPathAt(g - O2)
   ELSE IF g <= O4 THEN ForIndexAt(g - O3)
   ELSE IF g <= O5 THEN PrefixExtAt(g - O4)
-  ELSE PathEveryCharAt(g - O5)
+  ELSE IF g <= O5 + NPathEveryChar THEN PathEveryCharAt(g - O5)
+  ELSE ForIdxHistAt(g - O5 - NPathEveryChar)
 Histories == IF "VERIF_TIER" \in DOMAIN IOEnv /\ IOEnv.VERIF_TIER = "thorough" THEN 300 ELSE 40
 VARIABLE n
 INSTANCE GenBase
